@@ -82,6 +82,10 @@ type Check struct {
 	HangLimit time.Duration
 }
 
+// RunDeadline is the internal deadline of the current run (for generators that
+// do substantial work of their own between two emitted cases).
+var RunDeadline time.Time
+
 type Violation struct {
 	Case    Case
 	Outcome Outcome
@@ -233,6 +237,7 @@ func run(c *Check, tier string) int {
 		budget = 10 * time.Minute
 	}
 	deadline := start.Add(budget)
+	RunDeadline = deadline
 
 	// Known findings: replay each open witness; the region is active only
 	// while the witness still fails with the recorded class.
